@@ -466,3 +466,23 @@ Example pool_call_sample :
   p_out r = Raised ETimeout /\ core (p_state r) = (30000, 12500, 12500)
   /\ rev (log (p_state r)) = [(PhIo, (80, 12500, 12500)); (PhTimed, (80, 2000, 12500)); (PhTimed, (80, 2000, 12500))].
 Proof. vm_compute; auto. Qed.
+
+(* degenerate arguments: an empty batch reaches no decorated call, an argument check that raises ends the public method
+   before one - neither sets a timeout at any point (not only "restored": nothing is observed, nothing is logged),
+   whatever the override; and a plural call whose first command fails its own check inside the decorated call
+   ([BPre]) has set and restored it *)
+Theorem degenerate_calls_touch_nothing : forall c o stop e x s,
+  run_op c (OSendCommands o stop []) s = (s, Ok)
+  /\ run_op c (ONet PNone (OSendCommands o stop [])) s = (s, Ok)
+  /\ run_op c (ONet (PNoIo e) x) s = (s, Raised e)
+  /\ core (fst (run_op c (OSendCommands o stop [BPre e]) s)) = core s.
+Proof.
+  intros c o stop e x s. repeat split; try reflexivity.
+  cbn [run_op send_commands_loop]. destruct o as [|v|]; cbn [with_override body_plain]; try reflexivity.
+  destruct (v =? ops s); reflexivity.
+Qed.
+
+Example degenerate_calls_sample :
+  run_op (mkcfg true true) (ONet PIoOk (OSendCommands (OvVal 7500) true [])) (mkst 30000 30000 30000 [])
+  = (mkst 30000 30000 30000 [(PhAcq, (30000, 30000, 30000))], Ok).
+Proof. vm_compute; reflexivity. Qed.
